@@ -176,6 +176,7 @@ package websocket
 //@ ensures [n] 0 <= result0 && result0 <= len(p) && (result1 == nil ==> result0 == len(p))
 //@ ensures [pos] ghrd(c.br).pos == old(ghrd(c.br).pos) + result0
 //@ ensures [bytes] forall(0, result0, func(k int) bool { return p[k] == rdin(c.br, old(ghrd(c.br).pos)+k) })
+//@ ensures [eof-short] {C04} errIs(result1, io.EOF) || errIs(result1, io.ErrUnexpectedEOF) ==> result0 < len(p)
 //@ ensures [rearm] {C10} result1 == nil ==> gvcArmed(c.readTimeout) == context.Background()
 //@ ensures [closed-fails] {C06} old(gvcClosed(c.closed)) ==> result1 != nil
 //@ ensures [not-ce] !errIsCE(result1)
@@ -190,12 +191,14 @@ package websocket
 // and proved against their bodies further below (write.go / close.go sections).
 
 //@ func (*Conn).writeError
+//@ assumed in-package contract, not yet proved against its body (listed as assumed in the evidence)
 //@ tags C03 C08 C16
 //@ requires connInv(c) && err != nil
 //@ modifies $WRFP
 //@ ensures [inv] connInv(c)
 
 //@ func (*Conn).writeControl
+//@ assumed in-package contract, not yet proved against its body (listed as assumed in the evidence)
 //@ tags C02 C15 C10
 //@ requires connInv(c) && ctx != nil && len(p) <= 125 && opcode >= 8 && opcode <= 10
 //@ modifies $WRFP
@@ -203,12 +206,14 @@ package websocket
 //@ ensures [fresh-err] result != io.EOF && !errIsCE(result)
 
 //@ func (*Conn).writeClose
+//@ assumed in-package contract, not yet proved against its body (listed as assumed in the evidence)
 //@ tags C06 C16
 //@ requires connInv(c)
 //@ modifies $WRFP
 //@ ensures [inv] connInv(c)
 
 //@ func (*Conn).close
+//@ assumed in-package contract, not yet proved against its body (listed as assumed in the evidence)
 //@ tags C05 C06 C20
 //@ requires connInv(c) && !gvcHeld(c.readMu.ch)
 //@ modifies $WRFP, $CLFP
@@ -258,8 +263,10 @@ package websocket
 //@ ensures [payload-server] {C04 C01} !mr.c.client && !(mr.flate && mr.fin && mr.payloadLength == 0) && mr.c.br == old(mr.c.br) ==> forall(0, result0, func(k int) bool { return p[k] == rdin(mr.c.br, ghrd(mr.c.br).pos-result0+k)^specMaskByte(specUnrot(mr.maskKey, result0), k) })
 //@ ensures [payload-client] {C04 C01} mr.c.client && !(mr.flate && mr.fin && mr.payloadLength == 0) && mr.c.br == old(mr.c.br) ==> forall(0, result0, func(k int) bool { return p[k] == rdin(mr.c.br, ghrd(mr.c.br).pos-result0+k) })
 //@ ensures [nonneg] mr.payloadLength >= 0
+//@ ensures [err-not-complete] {C04} (errIs(result1, io.EOF) || errIs(result1, io.ErrUnexpectedEOF)) && result1 != io.EOF ==> !(mr.fin && mr.payloadLength == 0)
+//@ ensures [advance] {C04 C01} old(mr.payloadLength) > 0 && mr.c.br == old(mr.c.br) ==> mr.payloadLength == old(mr.payloadLength)-int64(result0) && mr.fin == old(mr.fin)
 //@ loop 1 modifies mr.fin, mr.payloadLength, mr.maskKey, $RDFPm, $WRFPm, $CLFPm
-//@ loop 1 invariant [inv] connInv(mr.c) && mr.c.br == old(mr.c.br) && mr.c.br != nil && gvcHeld(mr.c.readMu.ch) && mr.payloadLength >= 0 && gvcSameSlice(p, old(p))
+//@ loop 1 invariant [inv] connInv(mr.c) && mr.c.br == old(mr.c.br) && mr.c.br != nil && gvcHeld(mr.c.readMu.ch) && mr.payloadLength >= 0 && gvcSameSlice(p, old(p)) && (old(mr.payloadLength) > 0 ==> mr.payloadLength == old(mr.payloadLength) && mr.fin == old(mr.fin))
 
 //@ func (*limitReader).Read
 //@ tags C08
